@@ -15,19 +15,19 @@ use vh_ctc::*;
 
 struct Input {
     l: usize,
-    den: u32,
+    den: u64,
     k: u32,
     n: u32,
-    rows: Vec<Vec<u32>>,
+    rows: Vec<Vec<u64>>,
 }
 
 fn parse(line: &str) -> Input {
     let p: Vec<&str> = line.split('|').collect();
     let l: usize = p[0].parse().unwrap();
-    let den: u32 = p[1].parse().unwrap();
+    let den: u64 = p[1].parse().unwrap();
     let k: u32 = p[2].parse().unwrap();
     let n: u32 = p[3].parse().unwrap();
-    let rows: Vec<Vec<u32>> = if p[4].trim().is_empty() {
+    let rows: Vec<Vec<u64>> = if p[4].trim().is_empty() {
         vec![]
     } else {
         p[4].split(';').map(|r| r.split(',').map(|x| x.trim().parse().unwrap()).collect()).collect()
@@ -51,7 +51,8 @@ fn tensor(i: &Input) -> NdTensor<f32, 2> {
     let mut t = NdTensor::<f32, 2>::zeros([i.rows.len(), i.l]);
     for (ti, r) in i.rows.iter().enumerate() {
         for (li, &x) in r.iter().enumerate() {
-            t[[ti, li]] = (x as f32 / i.den as f32).ln();
+            // num and den have <= 24 significant bits and den is a power of two: the quotient is an exact f32
+            t[[ti, li]] = ((x as f64 / i.den as f64) as f32).ln();
         }
     }
     t
@@ -68,7 +69,11 @@ fn fscore(s: f32) -> String {
     if s == f32::INFINITY {
         return "FInf".into();
     }
-    let p = (s as f64).exp();
+    // exp(s) would underflow in f64 below about -745: report exp(s + S ln 2) * 2^-S with S chosen
+    // so that the first factor is near 1 (the value printed is still an exact dyadic rational)
+    let s64 = s as f64;
+    let sh = (-s64 / std::f64::consts::LN_2).round();
+    let p = (s64 + sh * std::f64::consts::LN_2).exp();
     if !p.is_finite() {
         return "FInf".into();
     }
@@ -76,7 +81,7 @@ fn fscore(s: f32) -> String {
     let ex = ((bits >> 52) & 0x7ff) as i64;
     let frac = bits & ((1u64 << 52) - 1);
     let (m, e) = if ex == 0 { (frac, -1074i64) } else { (frac | (1u64 << 52), ex - 1075) };
-    format!("(FVal {} ({})%Z)", m, e)
+    format!("(FVal {} ({})%Z)", m, e - sh as i64)
 }
 
 fn hyp(h: &CtcHypothesis) -> String {
@@ -112,9 +117,12 @@ fn exec_line(line: &str) -> String {
     let dead_row = i.rows.iter().any(|r| r.iter().all(|&x| x == 0));
     let uniform = !i.rows.is_empty() && i.rows.iter().all(|r| r.iter().all(|&x| x == r[0]));
     let npaths = (i.l as u64).saturating_pow(i.rows.len() as u32);
-    let recreate = i.l >= 1 && i.k >= 1 && !i.rows.is_empty() && sim_history(&i.rows, i.l, i.k as usize).0;
+    let deep = i.rows.len() >= 8;
+    let recreate = !deep && i.den <= 128 && i.l >= 1 && i.k >= 1 && !i.rows.is_empty() && sim_history(&i.rows, i.l, i.k as usize).0;
     let tag = if i.rows.is_empty() {
         "trivial-T0".to_string()
+    } else if deep {
+        format!("T{}L{}-deep-k{}", i.rows.len(), i.l, if (i.k as u64) >= npaths { "wide".to_string() } else { i.k.to_string() })
     } else if recreate {
         format!("T{}L{}-recreate-k{}", i.rows.len(), i.l, i.k)
     } else {
@@ -148,7 +156,11 @@ fn exec_line(line: &str) -> String {
 }
 
 /// A random row of numerators with sum <= den.
-fn gen_row(rng: &mut SplitMix64, l: usize, den: u32) -> Vec<u32> {
+fn gen_row(rng: &mut SplitMix64, l: usize, den: u32) -> Vec<u64> {
+    gen_row32(rng, l, den).into_iter().map(|x| x as u64).collect()
+}
+
+fn gen_row32(rng: &mut SplitMix64, l: usize, den: u32) -> Vec<u32> {
     let kind = rng.below(12);
     let mut r = vec![0u32; l];
     match kind {
@@ -229,7 +241,7 @@ fn gen_row(rng: &mut SplitMix64, l: usize, den: u32) -> Vec<u32> {
 /// prefix (s1 was dropped and re-created later while its extension s2 survived).  On such
 /// inputs the merge map joins states of different lineage -- the rarely taken branch.
 /// Returns (history found, some candidate was pruned).
-fn sim_history(rows: &[Vec<u32>], l: usize, k: usize) -> (bool, bool) {
+fn sim_history(rows: &[Vec<u64>], l: usize, k: usize) -> (bool, bool) {
     #[derive(Clone)]
     struct St {
         pre: Vec<(u32, u32)>,
@@ -303,7 +315,7 @@ fn sim_history(rows: &[Vec<u32>], l: usize, k: usize) -> (bool, bool) {
 /// (rejection sampling through `sim_history`).  Weights come from a small alphabet with one or
 /// two dominant labels per frame, den = 128 (all entries exact in f32).
 fn gen_recreate(rng: &mut SplitMix64, want: usize, out: &mut impl Write) {
-    let alpha = [1u32, 3, 13, 30];
+    let alpha = [1u64, 3, 13, 30];
     let mut made = 0;
     let mut tries = 0u64;
     while made < want && tries < 40_000_000 {
@@ -311,7 +323,7 @@ fn gen_recreate(rng: &mut SplitMix64, want: usize, out: &mut impl Write) {
         let t = 4 + rng.below(3) as usize;
         let l = if rng.chance(1, 5) { 4 } else { 3 };
         let k = 2 + rng.below(3) as u32;
-        let rows: Vec<Vec<u32>> = (0..t).map(|_| (0..l).map(|_| rng.pick(&alpha)).collect()).collect();
+        let rows: Vec<Vec<u64>> = (0..t).map(|_| (0..l).map(|_| rng.pick(&alpha)).collect()).collect();
         let (found, _) = sim_history(&rows, l, k as usize);
         if !found {
             continue;
@@ -323,10 +335,58 @@ fn gen_recreate(rng: &mut SplitMix64, want: usize, out: &mut impl Write) {
     }
 }
 
+/// "Deep" family: long inputs whose probabilities are tiny dyadics (k * 2^-e, e in 20..40, for every
+/// label including the blank; rows do not sum to 1), so that prefix log-probabilities fall to
+/// -100 ... -1800: far below the range where an unshifted exp()/ln() still works in f32.
+/// Entries of a row are pairwise distinct (no arg-max ties).  Beams 1..8.
+fn gen_deep(rng: &mut SplitMix64, want: usize, out: &mut impl Write) {
+    for j in 0..want {
+        let t = [8usize, 16, 32, 64][j % 4];
+        let l = 2 + rng.below(3) as usize;
+        let rows: Vec<Vec<u64>> = (0..t)
+            .map(|_| {
+                let mut r: Vec<u64> = vec![];
+                while r.len() < l {
+                    let e = 20 + rng.below(21);
+                    let v = rng.pick(&[1u64, 3, 5]) << (40 - e);
+                    if !r.contains(&v) {
+                        r.push(v);
+                    }
+                }
+                r
+            })
+            .collect();
+        // wide enough to be unpruned for L = 2 sometimes; narrow otherwise
+        let k = 1 + rng.below(8) as u32;
+        let nb = 1 + rng.below(8) as u32;
+        let i = Input { l, den: 1u64 << 40, k, n: nb, rows };
+        writeln!(out, "{}", fmt_input(&i)).unwrap();
+    }
+    // short but very improbable: 4..6 frames with entries 2^-36 .. 2^-40 (log about -25 .. -28 each)
+    for _ in 0..want / 2 {
+        let t = 4 + rng.below(3) as usize;
+        let l = 2 + rng.below(2) as usize;
+        let rows: Vec<Vec<u64>> = (0..t)
+            .map(|_| {
+                let mut r: Vec<u64> = vec![];
+                while r.len() < l {
+                    let v = rng.pick(&[1u64, 3, 5, 7, 9, 11]) << rng.below(3);
+                    if !r.contains(&v) {
+                        r.push(v);
+                    }
+                }
+                r
+            })
+            .collect();
+        let i = Input { l, den: 1u64 << 40, k: 25, n: 25, rows };
+        writeln!(out, "{}", fmt_input(&i)).unwrap();
+    }
+}
+
 fn generate(seed: u64, n: usize, tier: &str, out: &mut impl Write) {
     // 1. exhaustive tiny scope: all matrices over a 3-value alphabet {0, 4/16, 5/16}
     let (max_t, max_l) = if tier == "thorough" { (2usize, 3usize) } else { (2, 2) };
-    let alpha = [0u32, 4, 5];
+    let alpha = [0u64, 4, 5];
     let kn: &[(u32, u32)] = if tier == "thorough" {
         &[(1, 1), (1, 25), (2, 2), (2, 25), (3, 25), (4, 3), (25, 25)]
     } else {
@@ -356,6 +416,9 @@ fn generate(seed: u64, n: usize, tier: &str, out: &mut impl Write) {
     // 2. structured family: prune-then-recreate histories under narrow beams
     let mut rng = SplitMix64(seed ^ 0xC39B);
     gen_recreate(&mut rng, if tier == "thorough" { 6000 } else { 600 }, out);
+    // 2b. deep family: long / very improbable inputs
+    let mut rng = SplitMix64(seed ^ 0xC39C);
+    gen_deep(&mut rng, if tier == "thorough" { 400 } else { 32 }, out);
     // 3. seeded random matrices T <= 5, L <= 4
     let mut rng = SplitMix64(seed ^ 0xC39);
     for _ in 0..n {
@@ -363,12 +426,12 @@ fn generate(seed: u64, n: usize, tier: &str, out: &mut impl Write) {
         let l = match rng.below(12) { 0 => 1, _ => 2 + rng.below(3) as usize };
         let den = rng.pick(&[16u32, 16, 16, 8, 4, 32]);
         let whole_uniform = rng.chance(1, 10);
-        let rows: Vec<Vec<u32>> = (0..t)
-            .map(|_| if whole_uniform { vec![den / l.max(1) as u32; l] } else { gen_row(&mut rng, l, den) })
+        let rows: Vec<Vec<u64>> = (0..t)
+            .map(|_| if whole_uniform { vec![(den / l.max(1) as u32) as u64; l] } else { gen_row(&mut rng, l, den) })
             .collect();
         let k = match rng.below(4) { 0 => 1 + rng.below(3) as u32, 1 => 1 + rng.below(8) as u32, _ => 1 + rng.below(25) as u32 };
         let nb = match rng.below(3) { 0 => 1 + rng.below(3) as u32, _ => 1 + rng.below(25) as u32 };
-        let i = Input { l, den, k, n: nb, rows };
+        let i = Input { l, den: den as u64, k, n: nb, rows };
         writeln!(out, "{}", fmt_input(&i)).unwrap();
     }
 }
@@ -387,12 +450,12 @@ fn main() {
         Some("famrate") => {
             // diagnostic: acceptance rate of the structured family's rejection filter
             let mut rng = SplitMix64(args[2].parse().unwrap());
-            let alpha = [1u32, 3, 13, 30];
+            let alpha = [1u64, 3, 13, 30];
             let (mut f, mut tot) = (0u64, 0u64);
             for _ in 0..200_000 {
                 let t = 4 + rng.below(3) as usize;
                 let k = 2 + rng.below(3) as usize;
-                let rows: Vec<Vec<u32>> = (0..t).map(|_| (0..3).map(|_| rng.pick(&alpha)).collect()).collect();
+                let rows: Vec<Vec<u64>> = (0..t).map(|_| (0..3).map(|_| rng.pick(&alpha)).collect()).collect();
                 tot += 1;
                 if sim_history(&rows, 3, k).0 { f += 1; }
             }
